@@ -193,7 +193,7 @@ func describe(cs []contract) (string, []string, []string) {
 	for _, c := range cs {
 		if strings.HasPrefix(c.file, "@") { // not a spec-file contract (engine intrinsic): a literal label
 			names = append(names, c.file[1:])
-			keys = append(keys, "@intrinsic")
+			keys = append(keys, c.file)
 			continue
 		}
 		line := fmt.Sprint(c.line)
@@ -418,10 +418,19 @@ func printCoverage() {
 			}
 		}
 	}
-	for _, o := range outcomes["@intrinsic"] {
-		if o.failed > 0 {
-			nf++
-			fmt.Printf("* engine intrinsic (see the section on intrinsics) — %d of %d cases in \"%s\": `%s`\n", o.failed, o.cases, o.title, strings.ReplaceAll(o.example, "`", "'"))
+	var atKeys []string
+	for k := range outcomes {
+		if strings.HasPrefix(k, "@") {
+			atKeys = append(atKeys, k)
+		}
+	}
+	sort.Strings(atKeys)
+	for _, k := range atKeys {
+		for _, o := range outcomes[k] {
+			if o.failed > 0 {
+				nf++
+				fmt.Printf("* %s — %d of %d cases in \"%s\": `%s`\n", k[1:], o.failed, o.cases, o.title, strings.ReplaceAll(o.example, "`", "'"))
+			}
 		}
 	}
 	if nf == 0 {
